@@ -565,7 +565,7 @@ impl<'a> World<'a> {
     // -----------------------------------------------------------------------------------------
     fn make_honest_advert(&self, s: usize) -> Advert {
         let keys = self.env.uni.keys.iter().filter(|k| k.owner == s).map(|k| k.origin.clone()).collect();
-        let hashes = self.env.uni.hashes.iter().filter(|h| h.owner == s).map(|h| h.id).collect();
+        let hashes = self.env.uni.hashes.iter().filter(|h| h.owner == s && h.usable).map(|h| h.id).collect();
         Advert { signer: s, keys, hashes, hostile: false, caps: self.signers[s].caps.clone() }
     }
 
@@ -1007,7 +1007,12 @@ impl<'a> World<'a> {
             }
             // other sighash types, announced in the PSBT so that signers follow them
             let sv = self.dec.choose(&format!("sighash{}:{}", ep, i), 16);
-            if sv >= 11 && (i < psbt.unsigned_tx.output.len() || !matches!(sv, 12 | 15)) {
+            // SIGHASH_SINGLE without a matching output: defined for segwit v0 (BIP143: zero hashOutputs);
+            // invalid for taproot (cannot be signed); for legacy inputs the digest is the constant 1,
+            // a signature that commits to nothing and that anyone can relabel - not a workload under
+            // which malleability (C03) can be judged, so legacy inputs do not use it
+            let segwit_v0 = matches!(ic.kind, OutKind::Wpkh | OutKind::Wsh | OutKind::ShWpkh | OutKind::ShWsh);
+            if sv >= 11 && (i < psbt.unsigned_tx.output.len() || segwit_v0 || !matches!(sv, 12 | 15)) {
                 use bitcoin::{EcdsaSighashType as E, TapSighashType as T};
                 psbt.inputs[i].sighash_type = Some(if taproot {
                     match sv {
